@@ -158,8 +158,8 @@ def run_trace(rng, spec, nops, kinds=None, oracles=("xref", "sync", "ctx"), extr
             if bid in UNIV_R and (ext is not None or op["type"] != "exchange"):
                 from cobra import Configuration
                 modelled = True
-                line_op = {"op": "add_boundary", "m": op["m"], "type": op["type"], "external": bool(ext),
-                           "dlb": canon.num(Configuration().lower_bound), "dub": canon.num(Configuration().upper_bound)}
+                cfg = op.get("cfg") or [canon.num(Configuration().lower_bound), canon.num(Configuration().upper_bound)]
+                line_op = {"op": "add_boundary", "m": op["m"], "type": op["type"], "external": bool(ext), "dlb": cfg[0], "dub": cfg[1]}
         depth_before = ex.depth
         err = ex.apply(op)
         probs = []
